@@ -1160,3 +1160,99 @@ Proof.
   cbn zeta. split; [vm_compute; repeat (split || intro)|]. split; [vm_compute; repeat (split || intro)|].
   split; [vm_compute; repeat split|]. vm_compute. repeat split.
 Qed.
+
+(** ------------------------------------------------------------------------------------------
+    Round 5 - SEVERAL WRITERS PER BAR, positively (AUDIT3 finding 4, last item).
+    model/MultiInterleave.v part 4: inc / dec / set_position at the granularity of the code -
+    [QStore b w] (one atomic RMW / store on the counter, no lock), the position limiter's verdict as
+    an ORACLE BIT of the call (its loads / stores of capacity / prev interleave arbitrarily between
+    writers: every verdict sequence is covered, the limiter never touches the counter), and - only
+    when the verdict is true - [QBracket b None paints] (bar mutex; `pos` read atomically; render;
+    draw, painted or refused by the draw target: a second oracle bit); finish* = one bracket with the
+    store inside, [QBracket b (Some w) true]; every other call = one bracket without counter write.
+    Brackets on one bar are totally ordered by its mutex and stores are atomic, so a section-level
+    execution of ANY number of threads making ANY calls on ANY bars under ANY schedule and ANY verdict
+    oracles is a LIST of sections ([Merge (map qthread_sections ts) l] for the per-thread view - the
+    statement needs no property of the list, which is why it holds for all of them).  The machine
+    keeps per bar the history of values its counter held and the log of painted frames
+    (bar, index into that history, shown value).  For every list of sections:
+    (a) every painted frame shows, for the bar whose bracket painted, the value the counter holds at
+        the instant of that bracket: entry [i] of the bar's section-level history - a value it had;
+    (b) never older: over the frames the indices shown for one bar are non-decreasing ([log_mono]);
+    (c) if a bracket on b paints at or after the last store on b (the store of finish* is inside
+        its bracket), the last frame of b shows the final counter value (last index, [q_cnt]).
+    Level: this is a theorem about the counter machine [qstep] (an abstraction of Sys.v to what
+    clause 3 says about positions: C02_pos_store_is_counter_write ties its writes to [pos_store]);
+    it is NOT glued to the rendering / screen theorems.  Relation to the rest: with ONE writer per bar
+    the sections of a call are adjacent and equal the atomic step (C02_pos_sections_adjacent), i.e.
+    the section model specialises to [AtomicExec]; the one-writer assumption is needed only for
+    C02_interleaving's formulation over atomic steps (which also speaks about messages, lengths,
+    order, the frames' other bars), while this theorem covers several writers for the position
+    clause.  The tie of the section split to the source is reading of src/progress_bar.rs:243-301
+    and src/state.rs (AtomicPosition) plus the two-writers-per-bar stress oracle of c02.rs. *)
+From IndProofs Require Import MultiWritersProofs.
+
+Theorem C02_pos_sections_any_writers : forall (c0 : N -> N) (l : list qstep),
+  let st := q_run (q_init c0) l in
+  (forall b i v, In (b, i, v) (q_log st) -> nth_error (q_hist st b) i = Some v)
+  /\ log_mono (q_log st)
+  /\ (forall b l1 ow l2, l = l1 ++ QBracket b ow true :: l2 ->
+        forallb (fun x => negb (stores_on b x)) l2 = true ->
+        last_shown (q_log st) b = Some (Nat.pred (length (q_hist st b)), q_cnt st b)).
+Proof. exact pos_sections_any_list. Qed.
+Print Assumptions C02_pos_sections_any_writers.
+
+(** the per-thread reading: threads = lists of calls with their two oracle bits, [l] any schedule of
+    their sections that respects each thread's order.  The [Merge] premise is NOT used by the proof
+    (the conclusion holds for every list): it is here to say which lists are schedules. *)
+Theorem C02_pos_sections_any_schedule : forall (c0 : N -> N) (ts : list (list (qcall * bool * bool)))
+    (l : list qstep),
+  Merge (map qthread_sections ts) l ->
+  let st := q_run (q_init c0) l in
+  (forall b i v, In (b, i, v) (q_log st) -> nth_error (q_hist st b) i = Some v)
+  /\ log_mono (q_log st)
+  /\ (forall b l1 ow l2, l = l1 ++ QBracket b ow true :: l2 ->
+        forallb (fun x => negb (stores_on b x)) l2 = true ->
+        last_shown (q_log st) b = Some (Nat.pred (length (q_hist st b)), q_cnt st b)).
+Proof. exact pos_sections_any_writers. Qed.
+Print Assumptions C02_pos_sections_any_schedule.
+
+(** the counter machine writes what the position store of Sys.v (MultiInterleave part 3) writes *)
+Theorem C02_pos_store_is_counter_write : forall (s : sys) (b d : N),
+  (N.to_nat b < length (s_bars s))%nat ->
+  b_pos (get_bar (pos_store s (OInc b d)) b) = wr_apply (WInc d) (b_pos (get_bar s b))
+  /\ b_pos (get_bar (pos_store s (ODec b d)) b) = wr_apply (WDec d) (b_pos (get_bar s b))
+  /\ b_pos (get_bar (pos_store s (OSetPos b d)) b) = wr_apply (WSet d) (b_pos (get_bar s b)).
+Proof. exact pos_store_is_counter_write. Qed.
+Print Assumptions C02_pos_store_is_counter_write.
+
+(** two threads inc the same bar three times each (verdicts mixed, one paint refused), a third
+    thread finishes it: a schedule of their sections; the log: frames show history entries 2, 2, 5,
+    7 (values 2, 2, 5, 9) - non-decreasing, and the finish frame shows the final value *)
+Example C02_pos_sections_example :
+  let t1 := [(QCPos 0 (WInc 1), true, true); (QCPos 0 (WInc 1), false, true); (QCPos 0 (WInc 1), true, true)] in
+  let t2 := [(QCPos 0 (WInc 1), true, true); (QCPos 0 (WInc 1), true, false); (QCPos 0 (WInc 1), false, true)] in
+  let t3 := [(QCFinish 0 9, true, true)] in
+  let l := [QStore 0 (WInc 1); QStore 0 (WInc 1); QBracket 0 None true; QBracket 0 None true;
+            QStore 0 (WInc 1); QStore 0 (WInc 1); QStore 0 (WInc 1); QBracket 0 None false; QBracket 0 None true;
+            QStore 0 (WInc 1); QBracket 0 (Some (WSet 9)) true] in
+  qthread_sections t1 = [QStore 0 (WInc 1); QBracket 0 None true; QStore 0 (WInc 1); QStore 0 (WInc 1); QBracket 0 None true]
+  /\ q_hist (q_run (q_init (fun _ => 0)) l) 0 = [0; 1; 2; 3; 4; 5; 6; 9]
+  /\ q_log (q_run (q_init (fun _ => 0)) l) = [(0, 2%nat, 2); (0, 2%nat, 2); (0, 5%nat, 5); (0, 7%nat, 9)]
+  /\ last_shown (q_log (q_run (q_init (fun _ => 0)) l)) 0 = Some (7%nat, 9).
+Proof. vm_compute. repeat split. Qed.
+
+(** (d) the honest negative: when the LAST section on a bar is a store whose call got the verdict
+    "false" from the position limiter (or whose bracket was refused by the draw target, or ran
+    before another writer's store), the last frame does NOT show the final value - the single-bar
+    cousin of D27.  It is made good by the next painted bracket on that bar (a tick, a set_message,
+    finish*: clause (c)); without one it stays. *)
+Theorem C02_pos_last_store_unpainted_refuted :
+  let l := qthread_sections [(QCPos 0 (WInc 1), true, true); (QCPos 0 (WInc 1), false, true)] in
+  let st := q_run (q_init (fun _ => 0)) l in
+  l = [QStore 0 (WInc 1); QBracket 0 None true; QStore 0 (WInc 1)]
+  /\ q_cnt st 0 = 2 /\ last_shown (q_log st) 0 = Some (1%nat, 1)
+  (* ... and a tick afterwards repairs it *)
+  /\ last_shown (q_log (q_run st [QBracket 0 None true])) 0 = Some (2%nat, 2).
+Proof. vm_compute. repeat split. Qed.
+Print Assumptions C02_pos_last_store_unpainted_refuted.
